@@ -46,7 +46,20 @@ pub enum Handle {
 }
 
 /// Real lengths behind the model's region length tokens.
-pub const REGION_LENS: [usize; 10] = [0, 1, 4095, 4096, 4097, 8191, 8192, 8193, 100_000, 7];
+pub const REGION_LENS: [usize; 12] = [
+    0,
+    1,
+    4095,
+    4096,
+    4097,
+    8191,
+    8192,
+    8193,
+    100_000,
+    7,
+    2 * 1024 * 1024 + 1,
+    3 * 1024 * 1024 + 4097,
+];
 
 pub fn region_len(tok: i64) -> usize {
     REGION_LENS[(tok as usize) % REGION_LENS.len()]
@@ -476,6 +489,7 @@ fn spawn_process_agent() -> (Remote, IpcSender<Msg>) {
 }
 
 pub fn agent_main(name: &str) {
+    die_with_parent();
     verif::init();
     verif::set_actor(101);
     let (tx0, rx0) = ipc::channel::<Msg>().unwrap();
